@@ -601,6 +601,19 @@ func sectionTags(rng *vh.Rng) {
 				sec.Distribution["not-safe:impl-"+p.oc]++ // how often a set outside the Safe class still round-trips (or not)
 			}
 		}
+		if p.oc != "rej" && p.oc != "panic" {
+			// tightness of the class: safeW (Props.C08Tight.tags_roundtrip_weak) — inside it the line must read back as the
+			// same set (proved; an IMPL failure here is reported by reportTagsRT / the mismatch above); OUTSIDE it a round trip
+			// would refute the conjectured necessity `safeW_necessary` — counted, and kept as a sample
+			w := kvField(m, "safew")
+			sec.Distribution["safeW="+w+":impl-"+p.oc]++
+			if w == "0" && p.oc == "same" && first(m) == "same" {
+				res.Sample(map[string]interface{}{"roundtrips-outside-safeW": p.in})
+			}
+			if w == "1" && p.oc != "same" && first(m) == p.oc {
+				res.Mismatch(vh.Mismatch{Section: "tags", Function: "round trip on the class safeW (tags_roundtrip_weak)", Input: p.in, Impl: p.oc, Model: m})
+			}
+		}
 		reportTagsRT("tags", map[string]interface{}{"kind": p.kind, "case": p.in}, p.oc, p.line, m)
 	}
 	sec.Distribution["accepted:safe"] = nsafe
